@@ -165,7 +165,8 @@ def gen_case(rng, k, quick):
         userdir = rng.choice([b"", b"", b"in", b"deep/er"])
         srcs.append((userdir, t))
     c = dict(k=k, srcs=srcs, p=p, reverse=reverse, host=rng.choice(HOSTS), um=rng.choice([0o22, 0o22, 0o77, 0, 0o27]),
-             dest=b"dest", conflict=None, destmode=rng.choice([0o755, 0o755, 0o755, 0o700, 0o2775]), subsec=False)
+             dest=b"dest", conflict=None, overwrite=None,
+             destmode=rng.choice([0o755, 0o755, 0o755, 0o700, 0o2775]), subsec=False)
     if nsrc == 1 and srcs[0][1].kind == "f" and not reverse and rng.random() < 0.3:
         c["dest"] = b"dest/new name"                       # single file copied to a (new) file name
     elif rng.random() < 0.15:
@@ -180,6 +181,11 @@ def gen_case(rng, k, quick):
         cand = [(path, n) for _, t in srcs for path, n in walk(t, [])]
         path, n = rng.choice(cand)
         c["conflict"] = (path, n.kind)
+    elif c["dest"] == b"dest" and rng.random() < 0.12:
+        # a longer regular file of the same name is already there: it must be replaced, not patched
+        files = [(path, n) for _, t in srcs for path, n in walk(t, []) if n.kind == "f"]
+        if files:
+            c["overwrite"] = rng.choice(files)[0]
     return c
 
 
@@ -224,6 +230,14 @@ def run_cases(ctx, exe, cases, cnt, repaired, cov, dist, distinct):
                 ents.append(Ent(b"o/w/dest/" + b"/".join(comps[:i]), "d", 0o755, OLD + 20 + i))
             ents.append(Ent(cpath, "f", 0o644, OLD + 30, b"in the way") if kind == "d" else Ent(cpath, "d", 0o755, OLD + 30))
             c["conflict_path"] = cpath
+        if c.get("overwrite"):
+            comps = c["overwrite"].split(b"/")
+            top = next(t for _, t in c["srcs"] if t.name == comps[0])
+            node = dict(walk(top, []))[c["overwrite"]]
+            comps[0] = dest_name(c, b"", top)
+            for i in range(1, len(comps)):
+                ents.append(Ent(b"o/w/dest/" + b"/".join(comps[:i]), "d", 0o755, OLD + 20 + i))
+            ents.append(Ent(b"o/w/dest/" + b"/".join(comps), "f", 0o600, OLD + 30, b"X" * (node.gen[1] + 50)))
         j = os.path.join(jbase, "j%d" % c["k"])
         pcp.build_jail(j, ents)
         jails.append(j)
@@ -275,6 +289,10 @@ def run_cases(ctx, exe, cases, cnt, repaired, cov, dist, distinct):
         ans, crash = impl[i]
         cj = case_json(c)
         f = pcp.fields(ans[0]) if ans else {}
+        if f.get("csig") == "997":
+            dist["skipped_after_timeouts"] = dist.get("skipped_after_timeouts", 0) + 1
+            cov["evaluations"] -= 1
+            continue
         if crash is not None or "crc" not in f:
             ctx.disagreement("pcp harness", "harness failed: %s %s" % (str(ans)[:200], str(crash)[-300:]), cj)
             continue
@@ -289,7 +307,7 @@ def run_cases(ctx, exe, cases, cnt, repaired, cov, dist, distinct):
         if f["san"] != "0" or f["csig"] != "0" or f["ssig"] != "0" or f["src"] != "0":
             sig = "timeout" if "998" in (f["csig"], f["ssig"]) else "crash"
             ctx.offender(sig, "client/server %s (client rc=%s sig=%s, server rc=%s sig=%s, sanitizer=%s): %s" %
-                         (sig, f["crc"], f["csig"], f["src"], f["ssig"], f["san"], errtxt[-300:]), cj)
+                         (sig, f["crc"], f["csig"], f["src"], f["ssig"], f["san"], errtxt[:300]), cj)
             continue
         # ---- specification oracle on the destination
         sp = sans[i]
@@ -300,6 +318,8 @@ def run_cases(ctx, exe, cases, cnt, repaired, cov, dist, distinct):
                 bads.append((pcp.unhx(ph), kind))
         elif sp != "ok":
             ctx.disagreement("spec11", "unexpected answer " + sp[:300], cj)
+        if c.get("overwrite"):
+            dist["overwrite_cases"] += 1
         cp = c.get("conflict_path")
         if cp:
             dist["conflict_cases"] += 1
@@ -387,7 +407,8 @@ def describe(node):
 def case_json(c):
     return dict(sources=[dict(userdir=u.decode("latin-1"), tree=describe(t)) for u, t in c["srcs"]], preserve=c["p"],
                 reverse=c["reverse"], host=c["host"].decode(), umask="%o" % c["um"], dest=c["dest"].decode("latin-1"),
-                destmode="%o" % c["destmode"], conflict=(c["conflict"][0].decode("latin-1"), c["conflict"][1]) if c["conflict"] else None)
+                destmode="%o" % c["destmode"], conflict=(c["conflict"][0].decode("latin-1"), c["conflict"][1]) if c["conflict"] else None,
+                overwrite=c["overwrite"].decode("latin-1") if c.get("overwrite") else None)
 
 
 def from_json(j, k):
@@ -398,19 +419,22 @@ def from_json(j, k):
     return dict(k=k, srcs=[(s["userdir"].encode("latin-1"), mk(s["tree"])) for s in j["sources"]], p=j["preserve"],
                 reverse=j["reverse"], host=j["host"].encode(), um=int(j["umask"], 8), dest=j["dest"].encode("latin-1"),
                 conflict=(j["conflict"][0].encode("latin-1"), j["conflict"][1]) if j.get("conflict") else None,
+                overwrite=j["overwrite"].encode("latin-1") if j.get("overwrite") else None,
                 destmode=int(j["destmode"], 8), subsec=any(n.nsec for s in j["sources"] for _, n in walk(mk(s["tree"]), [])))
 
 
 def corpus(k0):
     def f(name, size, mode=0o644, mt=1234567890):
         return Node(name, "f", mode, mt, gen=(size + 7, size))
-    base = dict(p=1, reverse=False, host=b"host7", um=0o22, dest=b"dest", conflict=None, destmode=0o755, subsec=False)
+    base = dict(p=1, reverse=False, host=b"host7", um=0o22, dest=b"dest", conflict=None, overwrite=None, destmode=0o755,
+                subsec=False)
     cs = []
     for size in (0, 1, 8191, 8192, 8193, 3 * 8192 - 1, 3 * 8192, 3 * 8192 + 1):
         cs.append(dict(base, srcs=[(b"", f(b"f%d" % size, size))]))
         cs.append(dict(base, p=0, srcs=[(b"", Node(b"d", "d", 0o755, 1234567000, kids=[f(b"x y", size), f(b"z", 3)]))]))
     cs.append(dict(base, reverse=True, srcs=[(b"in", f(b"t", 10240)), (b"", Node(b"tree", "d", 0o750, 1300000000, kids=[f(b"q", 5)]))]))
     cs.append(dict(base, srcs=[(b"", Node(b"e", "d", 0o700, 1300000001, kids=[]))]))
+    cs.append(dict(base, p=0, overwrite=b"d/x", srcs=[(b"", Node(b"d", "d", 0o755, 1234567000, kids=[f(b"x", 10), f(b"z", 3)]))]))
     # a source the user names exactly like the leave-directory sentinel is sent as `E`
     cs.append(dict(base, srcs=[(b"", f(b"a!b@c#d$", 5)), (b"", f(b"after", 9))]))
     for i, c in enumerate(cs):
@@ -433,7 +457,7 @@ def run(ctx):
                    "forward and reverse (.host) naming, destination fresh / given as dir, dir/, absolute, new file name; "
                    "a few cases with an entry of the wrong kind already in the way; non-trivial = the tree holds >= 1 "
                    "directory and a file >= 8192 bytes; distinct = distinct model input line"}
-    dist = {"all_acks": 0, "with_error_replies": 0, "conflict_cases": 0, "spec_failures": 0, "model_mismatch": 0,
+    dist = {"all_acks": 0, "with_error_replies": 0, "conflict_cases": 0, "overwrite_cases": 0, "spec_failures": 0, "model_mismatch": 0,
             "with_dir_and_big_file": 0, "signatures": {}}
     distinct = set()
     if ok:
